@@ -10,6 +10,8 @@ export VERIF_REPO=$R
 : > harmless_results.txt
 run() { # patch, checks...
   local P=$1; shift
+  # ONLY="H1 H3" restricts the run to the patches whose name starts with one of these
+  if [ -n "${ONLY:-}" ]; then local ok=0; for o in $ONLY; do case "$P" in ${o}_*) ok=1;; esac; done; [ $ok = 1 ] || return; fi
   git -C $R checkout -q -- . ; git -C $R apply "$PWD/harmless/$P.diff" || { echo "$P patch-does-not-apply" | tee -a harmless_results.txt; return; }
   for C in "$@"; do
     out=$(./check $C 2>&1); rc=$?
